@@ -16,6 +16,9 @@ MANIFEST = {
           'C14_view_core_broker: for every store reached by ANY broker operation sequence, every limit, address and served proxy view, the installed claims satisfy wf_view_core (wf_view without NoDup; '
           'NoDup fails for duplicated EMPTY stable slot ranges of drained masters on one proxy and is not needed by any conclusion); C14_unique_broker / C14_migrating_broker: the conclusions of C14_unique / C14_migrating with '
           'reachable_any s and the view equation as the only hypotheses (every slot < 16384 of a proxy in a cluster is advertised exactly once; a visible MIGRATING entry is advertised at vm_src_proxy iff the task state is PreCheck, else at vm_dst_proxy). '
+          'Sequences: on ONE installed metadata (no SETCLUSTER in between) a real proxy acting as migration source / destination / bystander is stepped through PreCheck, PreSwitch, Scanning, FinalSwitch, SwitchCommitted '
+          '(source: gated control connections; destination: real UMCTL PRESWITCH / FINALSWITCH) and CLUSTER NODES + CLUSTER SLOTS are queried after every step in varying orders (first query early / late), each answer compared with the model under the '
+          'live task states and with the proxy\'s own routing decision for a key of every migrating range at that moment. '
           'The model is tied to the code by running the real generators and a real proxy on the same layouts x every phase x both versions and comparing parsed output over all 16384 slots.',
   'note': 'Coq kernel; closed under the global context; extraction + OCaml driver; the NODES text / SLOTS reply parsers of the harness are trusted (node ids are only length-checked). '
           'wf_view: stable ranges disjoint from everything, a migrating slot claimed exactly twice (MIGRATING + IMPORTING slot range with the same range list). The bystander clause is the recorded reading '
@@ -199,7 +202,7 @@ def gen_cases(chk):
     return cases, wf
 
 # ---------- monitors ----------
-def monitor(case, out, wf):
+def monitor(case, out, wf, expect=None):
     toks = case.split()
     kind, ver = toks[0], toks[1]
     local = parse_tlayout(toks[4]); peer = parse_tlayout(toks[5])
@@ -226,11 +229,11 @@ def monitor(case, out, wf):
     if kind == 'nodes': states = parse_states(toks[6])
     else:
         states = parse_states(parts.get('states', '-'))
-        drive = parse_states(toks[6])
+        drive = parse_states(toks[6]) if expect is None else {}
         for a, srs in local:
             for t, rs in srs:
                 if t == 'n': continue
-                exp = drive.get(rs, 'pc') if t == 'i' else 'pc'
+                exp = (drive.get(rs, 'pc') if t == 'i' else 'pc') if expect is None else expect[t]
                 if states.get(rs) != exp: return 'task %r (%s) is in state %r, driven to %r' % (rs, t, states.get(rs), exp)
     # claims per slot
     cl = [[] for _ in range(SLOT_NUM)]
@@ -269,6 +272,127 @@ def agree(o, m):
     if oh != mh: return False
     a = expand_runs(orr); b = expand_runs(mr)
     return all(x == y or (x[:1] == y[:1] and x[1:] in y[1:].split('|')) for x, y in zip(a, b))
+
+# ---------- sequences on ONE installed metadata: the topology queried repeatedly while the migration phases move ----------
+LEVEL_STATE = ['pc', 'ps', 'sc', 'fs', 'cm']
+SEQ_CORPUS = [
+    'seq 2 7 %s 127.0.0.1:7000@n:0-99+m:100-199 127.0.1.1:5299@i:100-199+n:200-16383 q,L1,q,L2,q,L3,q,L4,q' % SELF,
+    'seq 1 7 %s 127.0.0.1:7000@n:0-99+m:100-199 127.0.1.1:5299@i:100-199+n:200-16383 L2,q,L4,q' % SELF,
+    'seq 1 7 %s 127.0.0.1:7000@n:0-99+i:100-199 127.0.1.1:5299@m:100-199+n:200-16383 q,Dps,q,Dcm,q' % SELF,
+    'seq 2 7 %s 127.0.0.1:7000@n:0-99+i:100-199 127.0.1.1:5299@m:100-199+n:200-16383 Dps,q,Dcm,q' % SELF,
+    'seq 2 7 %s 127.0.0.1:7000@n:0-99 127.0.1.1:5299@m:100-199+n:200-16383;127.0.2.1:5299@i:100-199 q,q' % SELF,
+    'seq 1 9 %s 127.0.0.1:7000@n:0-99+m:100-199,300-399;127.0.0.1:7001@i:8000-8999 127.0.1.1:5299@i:100-199,300-399+n:200-299,400-7999;127.0.2.1:5299@m:8000-8999+n:9000-16383 q,Dps,q,L1,q,L2,q,Dcm,q,L4,q' % SELF,
+]
+SRC_STEPS = ['q,L1,q,L2,q,L3,q,L4,q', 'L1,q,L3,q', 'L2,q,L4,q', 'q,L4,q', 'L4,q,q', 'q,q,L2,q', 'L3,q,L4,q', 'q,L2,q']
+DST_STEPS = ['q,Dps,q,Dcm,q', 'Dps,q,Dcm,q', 'q,Dcm,q', 'Dcm,q,q', 'q,q,Dps,q']
+BOTH_STEPS = ['q,L1,q,Dps,q,L2,q,L3,q,Dcm,q,L4,q', 'Dps,L2,q,Dcm,L4,q', 'q,Dps,q,L2,q', 'L1,q,Dcm,q,L4,q', 'q,L4,Dcm,q']
+
+def gen_seq_cases(chk):
+    r = chk.rng
+    quick = chk.tier == 'quick'
+    cases = list(SEQ_CORPUS)
+    n = 18 if quick else 200
+    tries = 0
+    while len(cases) < len(SEQ_CORPUS) + n and tries < 50 * n:
+        tries += 1
+        local, peer, migs = gen_scenario(r, force_role=['src', 'dst', 'src', 'dst', None, 'by'][tries % 6])
+        has_m = any(t == 'm' for a, srs in local for t, rs in srs)
+        has_i = any(t == 'i' for a, srs in local for t, rs in srs)
+        if not migs: continue
+        if not (has_m or has_i) and tries % 6 != 5: continue          # few bystander-only sequences
+        steps = r.choice(BOTH_STEPS if has_m and has_i else SRC_STEPS if has_m else DST_STEPS if has_i else ['q,q', 'q'])
+        cases.append('seq %s %d %s %s %s %s' % (r.choice(['1', '2']), r.choice([1, 7, 233]), SELF, fmt_tlayout(local), fmt_tlayout(peer), steps))
+    return cases
+
+def seq_expected(steps):
+    """(state of every local migrating task, state of every local importing task) at each `q` of the step list"""
+    m, i, out = 'pc', 'pc', []
+    for st in steps.split(','):
+        if st == 'q': out.append({'m': m, 'i': i})
+        elif st[0] == 'L': m = LEVEL_STATE[min(int(st[1:]), 4)]
+        elif st[0] == 'D': i = st[1:]
+    return out
+
+def monitor_seq(case, out):
+    toks = case.split()
+    exp = seq_expected(toks[6])
+    if out.startswith(('phase-timeout', 'setcluster', 'switch', 'bad-step', 'panic', '<no')):
+        return 'the harness could not step the real proxy through %s: %s' % (toks[6], out[:160])
+    qs = out.split(' || ')
+    if len(qs) != len(exp): return '%d queries answered, %d asked (%s)' % (len(qs), len(exp), toks[6])
+    local = parse_tlayout(toks[4]); peer = parse_tlayout(toks[5])
+    lnodes = [a for a, _ in local]
+    role = {}
+    for a, srs in local:
+        for t, rs in srs:
+            if t != 'n': role[rs] = 'source' if t == 'm' else 'destination'
+    ends = {}
+    for a, srs in peer:
+        for t, rs in srs:
+            if t != 'n': ends.setdefault(rs, {})[t] = a
+    for k, q in enumerate(qs):
+        where = 'query %d of [%s] (local migrating tasks %s, local importing tasks %s)' % (k + 1, toks[6], exp[k]['m'], exp[k]['i'])
+        bad = monitor(case, q, True, expect=exp[k])
+        if bad: return where + ': ' + bad
+        parts = dict((p.split(' ', 1) + [''])[:2] for p in q.split(' | '))
+        nodes, _ = parse_addr_ranges(parts['nodes'], True)
+        for item in (parts.get('probe', '-').split(';') if parts.get('probe', '-') != '-' else []):
+            rtxt, res = item.rsplit('=', 1)
+            rs = tuple(tuple(int(x) for x in r.split('-')) for r in rtxt.split(','))
+            slot = next((a for a, b in rs if a <= b and a < SLOT_NUM), None)
+            if slot is None or res == 'skip': continue
+            adv = [a for a, rl in nodes.items() if any(x <= slot <= y for x, y in rl)]
+            if len(adv) != 1: return where + ': slot %d advertised at %r' % (slot, adv)
+            if res[0] == 'X':
+                if res[1:] not in lnodes: return where + ': key of slot %d executed on %s which is not a node of this proxy' % (slot, res[1:])
+                if adv[0] != toks[3]: return where + ': the proxy serves slot %d itself (node %s) but advertises it at %s' % (slot, res[1:], adv[0])
+            elif res[0] == 'M':
+                if rs in role:
+                    if adv[0] != res[1:]: return where + ': the proxy redirects slot %d to %s but advertises it at %s' % (slot, res[1:], adv[0])
+                elif res[1:] not in ends.get(rs, {}).values():
+                    return where + ': bystander redirects migrating slot %d to %s, neither its source nor its destination' % (slot, res[1:])
+            else:
+                return where + ': routing probe for slot %d was not answered: %s' % (slot, res)
+    return None
+
+def run_seq(chk):
+    cases = gen_seq_cases(chk)
+    rc, impl = chk.run_impl('slot', cases, jobs=6, timeout=2400)
+    mcases, ref = [], []
+    for i, c in enumerate(cases):
+        o = impl[i] if i < len(impl) else '<no output>'
+        t = c.split()
+        for k, q in enumerate(o.split(' || ')):
+            if q.startswith('nodes ') and ' | states ' in q:
+                st = q.split(' | states ')[1].split(' | probe ')[0].strip() or '-'
+                mcases.append('pnodes %s %s %s %s %s %s' % (t[1], t[2], t[3], t[4], t[5], st)); ref.append((i, k))
+    rc2, model = chk.run_model('slot', mcases, jobs=6) if mcases else (0, [])
+    mod = {}
+    for j, (i, k) in enumerate(ref):
+        mod[(i, k)] = model[j] if j < len(model) else '<no output>'
+    nfail, disagreements, nq = 0, [], 0
+    steps_hist = {}
+    for i, c in enumerate(cases):
+        o = impl[i] if i < len(impl) else '<no output>'
+        chk.count(c, True)
+        steps_hist[c.split()[6]] = steps_hist.get(c.split()[6], 0) + 1
+        bad = monitor_seq(c, o)
+        if bad:
+            nfail += 1
+            chk.violation({'kind': 'monitor', 'case': c, 'phase_sequence': c.split()[6], 'impl': o[:4000], 'what': bad})
+            continue
+        for k, q in enumerate(o.split(' || ')):
+            nq += 1
+            head = q.split(' | states ')[0]
+            if head != mod.get((i, k)):
+                disagreements.append({'case': c, 'query': k + 1, 'impl': q[:2000], 'model': str(mod.get((i, k)))[:2000]})
+        if i % 7 == 0: chk.sample({'case': c[:300], 'impl': o[:400]})
+    chk.sub('sequences_on_one_installed_metadata', cases=len(cases), queries=nq, step_lists=steps_hist,
+            monitor_failures=nfail, disagreements=len(disagreements))
+    if disagreements and not nfail:
+        chk.violation({'kind': 'correspondence', 'correspondence': 'Model/Topo.v vs CLUSTER NODES / CLUSTER SLOTS of a real proxy, queried repeatedly on one installed metadata',
+                       'first': disagreements[0], 'count': len(disagreements)}, no_input=True)
+    return len(cases) - len(set(d['case'] for d in disagreements))
 
 def run(chk):
     ok = vlib.standard_proof_phase(chk, TRUSTED, 'slot')
@@ -322,7 +446,7 @@ def run(chk):
         elif not agree(oc, m):
             disagreements.append({'case': c, 'model_case': mcases[i], 'impl': o[:2000], 'model': m[:2000]})
         if i % 53 == 0: chk.sample({'case': c[:300], 'impl': o[:300], 'model': m[:300]})
-    chk.cov['traces_validated_against_impl'] = len(cases) - len(disagreements)
+    chk.cov['traces_validated_against_impl'] = len(cases) - len(disagreements) + run_seq(chk)
     chk.sub('distribution', kinds=hist, migration_phase_of_each_migrating_range=phases, role_of_this_proxy_per_migration=roles,
             monitor_failures=nfail, disagreements=len(disagreements))
     chk.sub('all_slots', exhaustive=True, slots_per_case=SLOT_NUM)
@@ -340,6 +464,12 @@ def replay(data):
         print(data); return 0
     chk.build_impl('slot')
     _, impl = chk.run_impl('slot', [c])
+    if c.startswith('seq '):
+        bad = monitor_seq(c, impl[0]) if impl else None
+        print('case :', c)
+        for k, q in enumerate((impl[0] if impl else '').split(' || ')): print('query %d:' % (k + 1), q)
+        print('monitor:', bad)
+        return 1 if bad else 0
     mc = c
     if c.startswith('pnodes ') and impl and ' | states ' in impl[0]:
         t = c.split(); t[6] = impl[0].split(' | states ')[1].strip() or '-'; mc = ' '.join(t)
